@@ -7,6 +7,16 @@ IDS = ["C%02d" % i for i in range(1, 21)]
 TECH_SUM = "MIR value-flow summary (rustc_private facts, path-partitioned dataflow with std axioms) compared with a reference decision table; co-occurrence by Fourier-Motzkin entailment"
 
 CLAIMS = {
+ "C01": ("other", "Structural necessary conditions of the v1 grammar decided from the MIR summaries of both entry points and their common field parser: constants, window/limit terms, single tokeniser on {SP,CR}, keyword and field provenance of every accepting outcome, leading-zero and sign guards dominating Ok, CRLF suffix dominating Ok, TCP4/TCP6 sibling symmetry.", "5/C01",
+         "NOT decided: acceptance <=> grammar for arbitrary strings (token contents; defects D6/D7 of DESIGN.md are invisible). Trusted: std axioms incl. the token-layout axiom of str::splitn and the stated leniencies of u16/Ipv4Addr/Ipv6Addr::from_str.", "MIR value-flow summaries with a token model (tok(split(text), k)); dominance of guards over accepting outcomes decided by conflict with the path condition"),
+ "C08": ("other", "Display templates decoded from rustc's format_args encoding and compared piecewise with the canonical line per kind; argument order tied to the parser's token-to-field provenance; length bound by arithmetic over maximal widths; Header display echoes the stored window; FromStr delegation.", "5/C08",
+         "NOT decided: the round trip itself (std Display/FromStr inverse is an axiom; parser acceptance of every canonical line is the undecided part of C01).", "format template decoding + MIR value-flow summaries compared with reference; formatter/parser cross-check"),
+ "C15": ("other", "protocol() table, addresses_str offsets per kind under INV1, Display echo; the premises of INV1 are checked at every accepting outcome of the field parser.", "5/C15",
+         "INV1 follows from its premises by the token-layout axiom of str::splitn (lemma in DESIGN.md App. C.7), not re-derived mechanically.", TECH_SUM),
+ "C16": ("other", "Sibling agreement of the two v1 entry points against one window table; FromStr impls delegate; every field of the three to_owned functions is copied (Cow -> Cow::Owned of the same contents); 'static return types, no unsafe, no interior mutability; thorough tier: compile-fail witnesses.", "5/C16",
+         "Agreement clause is structural (same window term, same field parser). Derived PartialEq is field-wise and Cow equality compares contents (axiom).", TECH_SUM + "; signature / type-walk queries; rustc compile-fail witnesses (thorough)"),
+ "C18": ("other", "Two clauses only: no-CR-at-107 => HeaderTooLong (terminal) in both entry points; after CR + 1 byte the result is a function of input[..CR+2].", "5/C18",
+         "NOT decided: that the final verdict carries the complete flag on closed windows (defect D6: 'PROXY TCP4 1.1.1.1\\r\\n' stays incomplete for ever).", TECH_SUM),
  "C02": ("proof", "Every guarded outcome of the loop-free v2 parser, extracted from MIR, is compared with an exhaustive reference decision table (24 accepting rows with the exact decoded value, all rejecting row families); holds for every byte string relative to the std axioms.", "5/C02",
          "Trusted: rustc MIR/const-eval, the extractor and normaliser, std axioms (slice len/index/starts_with/==, u16::from_be_bytes, copy_from_slice, Ipv4Addr::new, Ipv6Addr::from). Panic freedom of the same function is C03.", TECH_SUM),
  "C05": ("other", "Flag algebra, classification of all 28 error variants, the v2 prefix rows and the auto-detector's fallback condition are decided for every input; for v1 only necessary structural conditions.", "5/C05",
